@@ -225,6 +225,8 @@ TagTok(n, at, g) == [t |-> "open", n |-> n, g |-> g, attrs |-> at]
 \*   [a |-> "style", e]     style={ T }: a style attribute value (T1 a declaration string, T2 a map with one declaration)
 \*   [a |-> "cssclassx"]    class={ tinted("green") }: a css template with an expression-valued property (its class id
 \*                          is computed at render time from the css text, value included)
+\*   [a |-> "classmix"]     class={ "card", boxed(), "wide" }: a css template class between two string literals
+\*   [a |-> "scriptcall2", n] onclick={ span2(1, 2) }: a script template whose parameters share a type (lo, hi int)
 \*   [a |-> "cssclass"]     class={ boxed() }: the class of a css template; its <style> element is written in front of
 \*                          the start tag, once per rendering (a "def" token, see Dedupe)
 \*   [a |-> "scriptcall", n] onclick={ greet("x") }: a call of a script template (n: the handler attribute); the <script> element defining the
@@ -258,9 +260,13 @@ DenAttrs(at, env) ==
                       [] a.a = "style"      -> [pairs |-> << [n |-> "style", v |-> a.e] >>, evs |-> << a.e >>]
                       [] a.a = "cssclass"   -> [pairs |-> << [n |-> "class", v |-> "CSSB"] >>, evs |-> <<>>]
                       [] a.a = "cssclassx"  -> [pairs |-> << [n |-> "class", v |-> "CSST"] >>, evs |-> <<>>]
+                      [] a.a = "classmix"   -> [pairs |-> << [n |-> "class", v |-> "CMIX"] >>, evs |-> <<>>]
+                      [] a.a = "scriptcall2" -> [pairs |-> << [n |-> a.n, v |-> "SCR2"] >>, evs |-> <<>>]
                       [] a.a = "scriptcall" -> [pairs |-> << [n |-> a.n, v |-> "SCRG"] >>, evs |-> <<>>]
              defs == CASE a.a = "cssclass"   -> << "cssB" >>
                        [] a.a = "cssclassx"  -> << "cssT" >>
+                       [] a.a = "classmix"   -> << "cssB" >>
+                       [] a.a = "scriptcall2" -> << "scriptS" >>
                        [] a.a = "scriptcall" -> << "scriptG" >>
                        \* as coded: the definitions needed by EITHER arm of a conditional attribute are written in
                        \* front of the start tag whatever the condition is (the handler attribute itself is
